@@ -1,34 +1,98 @@
 import DoitModel.Proofs.C05Main
 /-! # C05 (c), "normal report": a task is reported `unmet` only if one of its direct dependencies has a failure report
 
-Node invariant `NDp`: every name in a node's dependency lists is a dependency of the task (`DepNS` / `CalcOf` / setup),
-and every member of `bad_deps` is such a dependency and has a failure report. -/
+Node invariant `NDp`: every name in a node's dependency lists is a dependency of the task that the run has OBSERVED
+(`DepObs` / `CalcObs`: task_dep, calc_dep, what calc_deps with a finish report in the event list delivered) or — once
+`select_task` has looked at the task (`run_status` is not `None`) — one of its setup-tasks; every member of `bad_deps`
+(`ignored_deps`) is such a dependency and has a failure (`skip_ignore`) report. -/
 namespace DoitModel.Run
+
+/-- calc_deps of `t`, including those delivered by calc_deps that have a finish report in `evs` -/
+inductive CalcObs (inp : RunInput) (evs : List Ev) (t : Name) : Name → Prop
+  | base {c : Name} : c ∈ inp.calcDep t → CalcObs inp evs t c
+  | step {c c' : Name} : CalcObs inp evs t c → finBefore evs c → c' ∈ (inp.calcRes c).calcs → CalcObs inp evs t c'
+
+/-- direct dependency of `t` other than a setup-task, as far as the events `evs` determine it -/
+inductive DepObs (inp : RunInput) (evs : List Ev) (t : Name) : Name → Prop
+  | task {d : Name} : d ∈ inp.taskDep t → DepObs inp evs t d
+  | ofCalc {c : Name} : CalcObs inp evs t c → DepObs inp evs t c
+  | resTask {c d : Name} : CalcObs inp evs t c → finBefore evs c → d ∈ (inp.calcRes c).tasks → DepObs inp evs t d
+  | resFile {c d : Name} : CalcObs inp evs t c → finBefore evs c → d ∈ (inp.calcRes c).files → DepObs inp evs t d
+
+theorem CalcObs.mono {inp : RunInput} {evs evs' : List Ev} {t c : Name} (hm : ∀ e ∈ evs, e ∈ evs')
+    (h : CalcObs inp evs t c) : CalcObs inp evs' t c := by
+  induction h with
+  | base h => exact .base h
+  | step _ hf hc ih => exact .step ih (finBefore_mono hm hf) hc
+
+theorem DepObs.mono {inp : RunInput} {evs evs' : List Ev} {t d : Name} (hm : ∀ e ∈ evs, e ∈ evs')
+    (h : DepObs inp evs t d) : DepObs inp evs' t d := by
+  cases h with
+  | task h => exact .task h
+  | ofCalc h => exact .ofCalc (h.mono hm)
+  | resTask h f m => exact .resTask (h.mono hm) (finBefore_mono hm f) m
+  | resFile h f m => exact .resFile (h.mono hm) (finBefore_mono hm f) m
+
+theorem CalcObs.calcOf {inp : RunInput} {evs : List Ev} {t c : Name} (h : CalcObs inp evs t c) : CalcOf inp t c := by
+  induction h with
+  | base h => exact .base h
+  | step _ _ hc ih => exact .step ih hc
+
+theorem DepObs.depNS {inp : RunInput} {evs : List Ev} {t d : Name} (h : DepObs inp evs t d) : DepNS inp t d := by
+  cases h with
+  | task h => exact .task h
+  | ofCalc h => exact .ofCalc h.calcOf
+  | resTask h _ m => exact .resTask h.calcOf m
+  | resFile h _ m => exact .resFile h.calcOf m
+
+/-- observed dependency, or a setup-task of a task `select_task` has already looked at (`st`: its `run_status`) -/
+def IsDepO (inp : RunInput) (evs : List Ev) (n : Name) (st : RS) (d : Name) : Prop :=
+  DepObs inp evs n d ∨ (d ∈ inp.setup n ∧ st ≠ .none)
+
+theorem IsDepO.mono {inp : RunInput} {evs evs' : List Ev} {n d : Name} {st : RS} (hm : ∀ e ∈ evs, e ∈ evs')
+    (h : IsDepO inp evs n st d) : IsDepO inp evs' n st d := h.imp (fun a => a.mono hm) id
 
 def IsDep (inp : RunInput) (n d : Name) : Prop := DepNS inp n d ∨ d ∈ inp.setup n
 
+theorem IsDepO.isDep {inp : RunInput} {evs : List Ev} {n d : Name} {st : RS} (h : IsDepO inp evs n st d) :
+    IsDep inp n d := h.imp (fun a => a.depNS) (fun a => a.1)
+
 structure NDp (inp : RunInput) (evs : List Ev) (n : Name) (nd : Node) : Prop where
-  dt : ∀ d ∈ nd.dynTask, DepNS inp n d
-  dc : ∀ d ∈ nd.dynCalc, CalcOf inp n d
-  pt : ∀ d ∈ nd.pendTask, DepNS inp n d
-  pcalc : ∀ d ∈ nd.pendCalc, CalcOf inp n d
-  st : ∀ d ∈ nd.snapTask, DepNS inp n d
-  sc : ∀ d ∈ nd.snapCalc, CalcOf inp n d
-  wr : ∀ d ∈ nd.waitRun, IsDep inp n d
-  wc : ∀ d ∈ nd.waitRunCalc, CalcOf inp n d
-  bd : ∀ p ∈ nd.bad, IsDep inp n p ∧ ∃ k, Ev.failure p k ∈ evs
+  dt : ∀ d ∈ nd.dynTask, DepObs inp evs n d
+  dc : ∀ d ∈ nd.dynCalc, CalcObs inp evs n d
+  pt : ∀ d ∈ nd.pendTask, DepObs inp evs n d
+  pcalc : ∀ d ∈ nd.pendCalc, CalcObs inp evs n d
+  st : ∀ d ∈ nd.snapTask, DepObs inp evs n d
+  sc : ∀ d ∈ nd.snapCalc, CalcObs inp evs n d
+  wr : ∀ d ∈ nd.waitRun, IsDepO inp evs n nd.status d
+  wc : ∀ d ∈ nd.waitRunCalc, CalcObs inp evs n d
+  bd : ∀ p ∈ nd.bad, IsDepO inp evs n nd.status p ∧ ∃ k, Ev.failure p k ∈ evs
+  ig : ∀ p ∈ nd.ign, IsDepO inp evs n nd.status p ∧ Ev.skipIgn p ∈ evs
+  sp : ∀ todo, nd.pc = .setupIter todo → nd.status ≠ .none
 
 def AllND (inp : RunInput) (s : Sys) : Prop := ∀ n nd, s.nodes n = some nd → NDp inp s.events n nd
 
 theorem NDp.mono {inp : RunInput} {evs evs' : List Ev} {n : Name} {nd : Node} (h : NDp inp evs n nd)
     (hm : ∀ e ∈ evs, e ∈ evs') : NDp inp evs' n nd :=
-  ⟨h.dt, h.dc, h.pt, h.pcalc, h.st, h.sc, h.wr, h.wc,
-   fun p hp => ⟨(h.bd p hp).1, by obtain ⟨k, hk⟩ := (h.bd p hp).2; exact ⟨k, hm _ hk⟩⟩⟩
+  ⟨fun d hd => (h.dt d hd).mono hm, fun d hd => (h.dc d hd).mono hm, fun d hd => (h.pt d hd).mono hm,
+   fun d hd => (h.pcalc d hd).mono hm, fun d hd => (h.st d hd).mono hm, fun d hd => (h.sc d hd).mono hm,
+   fun d hd => (h.wr d hd).mono hm, fun d hd => (h.wc d hd).mono hm,
+   fun p hp => ⟨(h.bd p hp).1.mono hm, by obtain ⟨k, hk⟩ := (h.bd p hp).2; exact ⟨k, hm _ hk⟩⟩,
+   fun p hp => ⟨(h.ig p hp).1.mono hm, hm _ (h.ig p hp).2⟩, h.sp⟩
+
+/-- what the event list says about a finished status `pst` of task `p` -/
+structure PstOK (evs : List Ev) (pst : RS) (p : Name) : Prop where
+  f : pst = .fail → ∃ k, Ev.failure p k ∈ evs
+  i : pst = .ign → Ev.skipIgn p ∈ evs
+  g : pst.good = true → finBefore evs p
+
+/-- every final status is backed by its report in `evs` -/
+def EvSt (evs : List Ev) (s : Sys) : Prop := ∀ d, PstOK evs (stOf s d) d
 
 /-! ### node-level lemmas -/
 
 theorem mkNode_nd (inp : RunInput) (evs : List Ev) (t : Name) (anc : List Name) : NDp inp evs t (mkNode inp t anc) := by
-  refine ⟨fun d hd => .task hd, ?_, fun d hd => .task hd, ?_, ?_, ?_, ?_, ?_, ?_⟩
+  refine ⟨fun d hd => .task hd, ?_, fun d hd => .task hd, ?_, ?_, ?_, ?_, ?_, ?_, ?_, ?_⟩
   · intro d hd; exact .base (mem_dedup.mp hd)
   · intro d hd; exact .base (mem_dedup.mp hd)
   · intro d hd; simp [mkNode] at hd
@@ -36,20 +100,22 @@ theorem mkNode_nd (inp : RunInput) (evs : List Ev) (t : Name) (anc : List Name) 
   · intro d hd; simp [mkNode] at hd
   · intro d hd; simp [mkNode] at hd
   · intro d hd; simp [mkNode] at hd
+  · intro d hd; simp [mkNode] at hd
+  · intro todo h; simp [mkNode] at h
 
 theorem addDeps_nd {inp : RunInput} {evs : List Ev} {n p : Name} {nd : Node} (h : NDp inp evs n nd)
-    (hp : CalcOf inp n p) : NDp inp evs n (nd.addDeps (inp.calcRes p)) := by
-  have nt : ∀ d ∈ newTaskDeps nd (inp.calcRes p), DepNS inp n d := by
+    (hp : CalcObs inp evs n p) (hf : finBefore evs p) : NDp inp evs n (nd.addDeps (inp.calcRes p)) := by
+  have nt : ∀ d ∈ newTaskDeps nd (inp.calcRes p), DepObs inp evs n d := by
     intro d hd
     simp only [newTaskDeps, List.mem_append] at hd
     rcases hd with a | a
-    · exact .resTask hp a
-    · exact .resFile hp (implicitNew_mem a)
-  have nc : ∀ d ∈ newCalcDeps nd (inp.calcRes p), CalcOf inp n d := by
+    · exact .resTask hp hf a
+    · exact .resFile hp hf (implicitNew_mem a)
+  have nc : ∀ d ∈ newCalcDeps nd (inp.calcRes p), CalcObs inp evs n d := by
     intro d hd
     simp only [newCalcDeps, List.mem_filter] at hd
-    exact .step hp (mem_dedup.mp hd.1)
-  refine ⟨?_, ?_, ?_, ?_, h.st, h.sc, h.wr, h.wc, h.bd⟩
+    exact .step hp hf (mem_dedup.mp hd.1)
+  refine ⟨?_, ?_, ?_, ?_, h.st, h.sc, h.wr, h.wc, h.bd, h.ig, h.sp⟩
   · intro d hd; simp only [Node.addDeps, List.mem_append] at hd
     rcases hd with a | a
     · exact h.dt d a
@@ -67,93 +133,122 @@ theorem addDeps_nd {inp : RunInput} {evs : List Ev} {n p : Name} {nd : Node} (h 
     · exact h.pcalc d a
     · exact nc d a.1
 
-theorem deliver_nd {inp : RunInput} {evs : List Ev} {n p : Name} {nd : Node} (pst : RS) (h : NDp inp evs n nd)
-    (hp : CalcOf inp n p) : NDp inp evs n (deliver inp pst p nd) := by
+theorem deliver_status (inp : RunInput) (pst : RS) (p : Name) (nd : Node) : (deliver inp pst p nd).status = nd.status := by
+  unfold deliver; split <;> rfl
+
+theorem deliver_nd {inp : RunInput} {evs : List Ev} {n p : Name} {nd : Node} {pst : RS} (h : NDp inp evs n nd)
+    (hp : CalcObs inp evs n p) (hg : PstOK evs pst p) : NDp inp evs n (deliver inp pst p nd) := by
   unfold deliver; split
-  · exact addDeps_nd h hp
+  · rename_i e; exact addDeps_nd h hp (hg.g e)
   · exact h
 
-theorem parentStatus_nd {inp : RunInput} {evs : List Ev} {n p : Name} {nd : Node} (pst : RS) (h : NDp inp evs n nd)
-    (hd : IsDep inp n p) (hf : pst = .fail → ∃ k, Ev.failure p k ∈ evs) : NDp inp evs n (parentStatus pst p nd) := by
-  refine ⟨h.dt, h.dc, h.pt, h.pcalc, h.st, h.sc, h.wr, h.wc, ?_⟩
-  intro x hx
-  simp only [parentStatus] at hx
-  split at hx
-  · rename_i e
-    rcases List.mem_append.mp hx with a | a
-    · exact h.bd x a
-    · simp at a; subst a; exact ⟨hd, hf e⟩
-  · exact h.bd x hx
+theorem parentStatus_nd {inp : RunInput} {evs : List Ev} {n p : Name} {nd : Node} {pst : RS} (h : NDp inp evs n nd)
+    (hd : IsDepO inp evs n nd.status p) (hf : PstOK evs pst p) : NDp inp evs n (parentStatus pst p nd) := by
+  refine ⟨h.dt, h.dc, h.pt, h.pcalc, h.st, h.sc, h.wr, h.wc, ?_, ?_, h.sp⟩
+  · intro x hx
+    simp only [parentStatus] at hx
+    split at hx
+    · rename_i e
+      rcases List.mem_append.mp hx with a | a
+      · exact h.bd x a
+      · simp at a; subst a; exact ⟨hd, hf.f e⟩
+    · exact h.bd x hx
+  · intro x hx
+    simp only [parentStatus] at hx
+    split at hx
+    · rename_i e
+      rcases List.mem_append.mp hx with a | a
+      · exact h.ig x a
+      · simp at a; subst a; exact ⟨hd, hf.i e⟩
+    · exact h.ig x hx
 
-theorem absorbDone_nd {inp : RunInput} {s : Sys} {evs : List Ev} {n : Name} (isCalc : Bool)
-    (hfe : ∀ d, stOf s d = .fail → ∃ k, Ev.failure d k ∈ evs) :
-    ∀ (ds : List Name) (nd : Node), NDp inp evs n nd →
-      (∀ d ∈ ds, if isCalc = true then CalcOf inp n d else IsDep inp n d) →
+theorem absorbDone_status (inp : RunInput) (s : Sys) (isCalc : Bool) : ∀ (ds : List Name) (nd : Node),
+    (absorbDone inp s isCalc ds nd).status = nd.status := by
+  intro ds
+  induction ds with
+  | nil => intro nd; rfl
+  | cons a t ih =>
+    intro nd
+    simp only [absorbDone]
+    split
+    · exact ih nd
+    · rw [ih]; split
+      · rw [deliver_status]; rfl
+      · rfl
+
+theorem absorbDone_nd {inp : RunInput} {s : Sys} {evs : List Ev} {n : Name} (isCalc : Bool) (st0 : RS)
+    (hes : EvSt evs s) :
+    ∀ (ds : List Name) (nd : Node), NDp inp evs n nd → nd.status = st0 →
+      (∀ d ∈ ds, if isCalc = true then CalcObs inp evs n d else IsDepO inp evs n st0 d) →
       NDp inp evs n (absorbDone inp s isCalc ds nd) := by
   intro ds
   induction ds with
-  | nil => intro nd h _; exact h
+  | nil => intro nd h _ _; exact h
   | cons a t ih =>
-    intro nd h hds
+    intro nd h hst hds
     simp only [absorbDone]
     have ha := hds a (by simp)
     split
-    · exact ih nd h (fun d hd => hds d (by simp [hd]))
-    · apply ih _ _ (fun d hd => hds d (by simp [hd]))
-      split
+    · exact ih nd h hst (fun d hd => hds d (by simp [hd]))
+    · split
       · rename_i hc
         simp only [hc, if_true] at ha
-        exact deliver_nd _ (parentStatus_nd _ h (Or.inl (.ofCalc ha)) (hfe a)) ha
+        refine ih _ (deliver_nd (parentStatus_nd h (Or.inl (.ofCalc ha)) (hes a)) ha (hes a)) ?_
+          (fun d hd => hds d (by simp [hd]))
+        rw [deliver_status]; exact hst
       · rename_i hc
         simp only [hc] at ha
-        exact parentStatus_nd _ h ha (hfe a)
+        exact ih _ (parentStatus_nd h (hst ▸ ha) (hes a)) hst (fun d hd => hds d (by simp [hd]))
 
 theorem waitNode_nd {inp : RunInput} {s : Sys} {evs : List Ev} {n : Name} {nd : Node} (ds : List Name) (isCalc : Bool)
-    (pc' : PC) (hfe : ∀ d, stOf s d = .fail → ∃ k, Ev.failure d k ∈ evs) (h : NDp inp evs n nd)
-    (hds : ∀ d ∈ ds, if isCalc = true then CalcOf inp n d else IsDep inp n d) :
+    (pc' : PC) (hes : EvSt evs s) (h : NDp inp evs n nd)
+    (hds : ∀ d ∈ ds, if isCalc = true then CalcObs inp evs n d else IsDepO inp evs n nd.status d)
+    (hpc : ∀ todo, pc' = .setupIter todo → nd.status ≠ .none) :
     NDp inp evs n (waitNode inp s nd ds isCalc pc') := by
-  have a := absorbDone_nd (s := s) isCalc hfe ds nd h hds
+  have a := absorbDone_nd (s := s) isCalc nd.status hes ds nd h rfl hds
+  have est : (absorbDone inp s isCalc ds nd).status = nd.status := absorbDone_status inp s isCalc ds nd
   unfold waitNode addWaits
   split
   · rename_i hc
-    refine ⟨a.dt, a.dc, a.pt, a.pcalc, a.st, a.sc, a.wr, ?_, a.bd⟩
+    refine ⟨a.dt, a.dc, a.pt, a.pcalc, a.st, a.sc, a.wr, ?_, a.bd, a.ig, fun todo e => est ▸ hpc todo e⟩
     intro d hd
     rcases List.mem_append.mp hd with x | x
     · have := hds d (List.mem_filter.mp x).1
       simpa [hc] using this
     · exact a.wc d x
   · rename_i hc
-    refine ⟨a.dt, a.dc, a.pt, a.pcalc, a.st, a.sc, ?_, a.wc, a.bd⟩
+    refine ⟨a.dt, a.dc, a.pt, a.pcalc, a.st, a.sc, ?_, a.wc, a.bd, a.ig, fun todo e => est ▸ hpc todo e⟩
     intro d hd
     rcases List.mem_append.mp hd with x | x
     · have := hds d (List.mem_filter.mp x).1
-      simpa [hc] using this
+      have : IsDepO inp evs n nd.status d := by simpa [hc] using this
+      exact est ▸ this
     · exact a.wr d x
 
-theorem wokenNode_nd {inp : RunInput} {evs : List Ev} {n p : Name} {nd : Node} (pst : RS) (h : NDp inp evs n nd)
-    (hnc : wakeCrash p nd = false) (hf : pst = .fail → ∃ k, Ev.failure p k ∈ evs) :
+theorem wokenNode_nd {inp : RunInput} {evs : List Ev} {n p : Name} {nd : Node} {pst : RS} (h : NDp inp evs n nd)
+    (hnc : wakeCrash p nd = false) (hf : PstOK evs pst p) :
     NDp inp evs n (wokenNode inp pst p nd) := by
   unfold wokenNode
   split
   · rename_i hc
     have hp := h.wc p hc
-    apply deliver_nd _ _ hp
-    have a := parentStatus_nd pst h (Or.inl (.ofCalc hp)) hf
+    refine deliver_nd ?_ hp hf
+    have a := parentStatus_nd h (Or.inl (.ofCalc hp)) hf
     exact ⟨a.dt, a.dc, a.pt, a.pcalc, a.st, a.sc, fun d hd => h.wr d (List.mem_filter.mp hd).1,
-      fun d hd => h.wc d (List.mem_filter.mp hd).1, a.bd⟩
+      fun d hd => h.wc d (List.mem_filter.mp hd).1, a.bd, a.ig, a.sp⟩
   · rename_i hc
     have hw : p ∈ nd.waitRun := by
       unfold wakeCrash at hnc
       simp only [hc, not_false_eq_true, decide_true, Bool.and_true, decide_eq_false_iff_not, Decidable.not_not] at hnc
       exact hnc
-    have a := parentStatus_nd pst h (h.wr p hw) hf
-    exact ⟨a.dt, a.dc, a.pt, a.pcalc, a.st, a.sc, fun d hd => h.wr d (List.mem_filter.mp hd).1, a.wc, a.bd⟩
+    have a := parentStatus_nd h (h.wr p hw) hf
+    exact ⟨a.dt, a.dc, a.pt, a.pcalc, a.st, a.sc, fun d hd => h.wr d (List.mem_filter.mp hd).1, a.wc, a.bd, a.ig, a.sp⟩
 
 theorem addWaiting_nd {inp : RunInput} {evs : List Ev} {n : Name} {nd : Node} (m : Name) (h : NDp inp evs n nd) :
     NDp inp evs n (nd.addWaiting m) := by
   unfold Node.addWaiting; split
   · exact h
-  · exact ⟨h.dt, h.dc, h.pt, h.pcalc, h.st, h.sc, h.wr, h.wc, h.bd⟩
+  · exact ⟨h.dt, h.dc, h.pt, h.pcalc, h.st, h.sc, h.wr, h.wc, h.bd, h.ig, h.sp⟩
 
 /-! ### state-level lemmas (`evs` fixed: the dispatcher adds no events) -/
 
@@ -179,12 +274,14 @@ theorem nd_registerWaiting {inp : RunInput} {evs : List Ev} {s : Sys} (n : Name)
     · simp only [e, if_true, Option.some.injEq] at hk; subst hk; exact addWaiting_nd n (h k x hx)
     · simp only [e, if_false, Option.some.injEq] at hk; subst hk; exact h k x hx
 
-theorem NDp.setPc {inp : RunInput} {evs : List Ev} {n : Name} {nd : Node} (h : NDp inp evs n nd) (pc' : PC) :
-    NDp inp evs n { nd with pc := pc' } := ⟨h.dt, h.dc, h.pt, h.pcalc, h.st, h.sc, h.wr, h.wc, h.bd⟩
+theorem NDp.setPc {inp : RunInput} {evs : List Ev} {n : Name} {nd : Node} (h : NDp inp evs n nd) (pc' : PC)
+    (hpc : ∀ todo, pc' = .setupIter todo → nd.status ≠ .none) :
+    NDp inp evs n { nd with pc := pc' } := ⟨h.dt, h.dc, h.pt, h.pcalc, h.st, h.sc, h.wr, h.wc, h.bd, h.ig, hpc⟩
 
 theorem genStep_nd {inp : RunInput} {evs : List Ev} {s : Sys} {n : Name} {nd : Node} (d : Name) (pc' : PC)
-    (h : AllNDe inp evs s) (hn : s.nodes n = some nd) : AllNDe inp evs (genStep inp s n nd d pc') := by
-  have hx := (h n nd hn).setPc pc'
+    (h : AllNDe inp evs s) (hn : s.nodes n = some nd) (hpc : ∀ todo, pc' = .setupIter todo → nd.status ≠ .none) :
+    AllNDe inp evs (genStep inp s n nd d pc') := by
+  have hx := (h n nd hn).setPc pc' hpc
   unfold genStep
   cases hdn : s.nodes d with
   | none =>
@@ -198,14 +295,15 @@ theorem genStep_nd {inp : RunInput} {evs : List Ev} {s : Sys} {n : Name} {nd : N
     · exact nd_setNode h hx
 
 theorem addWaitRun_nd {inp : RunInput} {evs : List Ev} {s : Sys} {n : Name} {nd : Node} (ds : List Name) (c : Bool)
-    (pc' : PC) (hfe : ∀ d, stOf s d = .fail → ∃ k, Ev.failure d k ∈ evs) (h : AllNDe inp evs s)
-    (hn : s.nodes n = some nd) (hds : ∀ d ∈ ds, if c = true then CalcOf inp n d else IsDep inp n d) :
+    (pc' : PC) (hfe : EvSt evs s) (h : AllNDe inp evs s)
+    (hn : s.nodes n = some nd) (hds : ∀ d ∈ ds, if c = true then CalcObs inp evs n d else IsDepO inp evs n nd.status d)
+    (hpc : ∀ todo, pc' = .setupIter todo → nd.status ≠ .none) :
     AllNDe inp evs (addWaitRun inp s n nd ds c pc') := by
   unfold addWaitRun
-  exact nd_registerWaiting n _ (nd_setNode h (waitNode_nd ds c pc' hfe (h n nd hn) hds))
+  exact nd_registerWaiting n _ (nd_setNode h (waitNode_nd ds c pc' hfe (h n nd hn) hds hpc))
 
 theorem nodeStep_nd {inp : RunInput} {evs : List Ev} {s s' : Sys} {n : Name} {nd : Node} {perm : List Name}
-    (hfe : ∀ d, stOf s d = .fail → ∃ k, Ev.failure d k ∈ evs) (h : AllNDe inp evs s) (hn : s.nodes n = some nd)
+    (hfe : EvSt evs s) (h : AllNDe inp evs s) (hn : s.nodes n = some nd)
     (hs : nodeStep inp s n nd perm = some s') : AllNDe inp evs s' := by
   have hnd := h n nd hn
   unfold nodeStep at hs
@@ -213,64 +311,69 @@ theorem nodeStep_nd {inp : RunInput} {evs : List Ev} {s s' : Sys} {n : Name} {nd
   | loopTop =>
     simp only [hpc] at hs; split at hs
     · rename_i hp; cases hs
-      refine nd_setNode h ⟨hnd.dt, hnd.dc, by simp, by simp, hnd.pt, ?_, hnd.wr, hnd.wc, hnd.bd⟩
+      refine nd_setNode h ⟨hnd.dt, hnd.dc, by simp, by simp, hnd.pt, ?_, hnd.wr, hnd.wc, hnd.bd, hnd.ig,
+        fun _ e => by cases e⟩
       intro d hd; exact hnd.pcalc d (hp.mem_iff.mp hd)
     · cases hs
   | calcIter todo =>
     simp only [hpc] at hs
     cases todo with
-    | cons d ds => cases hs; exact genStep_nd d _ h hn
-    | nil => cases hs; exact addWaitRun_nd _ _ _ hfe h hn (fun d hd => by simpa using hnd.sc d hd)
+    | cons d ds => cases hs; exact genStep_nd d _ h hn (fun _ e => by cases e)
+    | nil =>
+      cases hs
+      exact addWaitRun_nd _ _ _ hfe h hn (fun d hd => by simpa using hnd.sc d hd) (fun _ e => by cases e)
   | taskIter todo =>
     simp only [hpc] at hs
     cases todo with
-    | cons d ds => cases hs; exact genStep_nd d _ h hn
+    | cons d ds => cases hs; exact genStep_nd d _ h hn (fun _ e => by cases e)
     | nil =>
       cases hs
       exact addWaitRun_nd _ _ _ hfe h hn (fun d hd => by
-        have : IsDep inp n d := Or.inl (hnd.st d hd)
-        simpa using this)
+        have : IsDepO inp evs n nd.status d := Or.inl (hnd.st d hd)
+        simpa using this) (fun _ e => by cases e)
   | afterDeps =>
     simp only [hpc] at hs
     split at hs
-    · cases hs; exact nd_setNode h (hnd.setPc _)
+    · cases hs; exact nd_setNode h (hnd.setPc _ (fun _ e => by cases e))
     · split at hs
-      · cases hs; intro k y hk; exact nd_setNode h (hnd.setPc .loopTop) k y hk
-      · cases hs; exact nd_setNode h (hnd.setPc _)
-  | self1 => simp only [hpc] at hs; cases hs; intro k y hk; exact nd_setNode h (hnd.setPc .afterSelf1) k y hk
+      · cases hs; intro k y hk; exact nd_setNode h (hnd.setPc .loopTop (fun _ e => by cases e)) k y hk
+      · cases hs; exact nd_setNode h (hnd.setPc _ (fun _ e => by cases e))
+  | self1 => simp only [hpc] at hs; cases hs; intro k y hk; exact nd_setNode h (hnd.setPc .afterSelf1 (fun _ e => by cases e)) k y hk
   | afterSelf1 =>
     simp only [hpc] at hs
     split at hs
-    · cases hs; exact nd_setNode h (hnd.setPc _)
+    · cases hs; exact nd_setNode h (hnd.setPc _ (fun _ e => by cases e))
     · split at hs
       · cases hs
         intro k y hk
         exact nd_setNode (x := { nd with pc := .setupDecide, waitSelect := true }) h
-          ⟨hnd.dt, hnd.dc, hnd.pt, hnd.pcalc, hnd.st, hnd.sc, hnd.wr, hnd.wc, hnd.bd⟩ k y hk
-      · cases hs; exact nd_setNode h (hnd.setPc _)
+          ⟨hnd.dt, hnd.dc, hnd.pt, hnd.pcalc, hnd.st, hnd.sc, hnd.wr, hnd.wc, hnd.bd, hnd.ig, fun _ e => by cases e⟩ k y hk
+      · cases hs; exact nd_setNode h (hnd.setPc _ (fun _ e => by cases e))
   | setupDecide =>
     simp only [hpc] at hs
-    split at hs <;> (cases hs; exact nd_setNode h (hnd.setPc _))
+    split at hs
+    · rename_i e; cases hs; exact nd_setNode h (hnd.setPc _ (fun _ _ => by rw [e]; simp))
+    · cases hs; exact nd_setNode h (hnd.setPc _ (fun _ e => by cases e))
   | setupIter todo =>
     simp only [hpc] at hs
     cases todo with
-    | cons d ds => cases hs; exact genStep_nd d _ h hn
+    | cons d ds => cases hs; exact genStep_nd d _ h hn (fun _ _ => hnd.sp _ hpc)
     | nil =>
       cases hs
       exact addWaitRun_nd _ _ _ hfe h hn (fun d hd => by
-        have : IsDep inp n d := Or.inr hd
-        simpa using this)
+        have : IsDepO inp evs n nd.status d := Or.inr ⟨hd, hnd.sp _ hpc⟩
+        simpa using this) (fun _ e => by cases e)
   | afterSetup =>
     simp only [hpc] at hs
     split at hs
-    · cases hs; intro k y hk; exact nd_setNode h (hnd.setPc .self2) k y hk
-    · cases hs; exact nd_setNode h (hnd.setPc _)
-  | self2 => simp only [hpc] at hs; cases hs; intro k y hk; exact nd_setNode h (hnd.setPc .afterSelf2) k y hk
-  | afterSelf2 => simp only [hpc] at hs; cases hs; exact nd_setNode h (hnd.setPc _)
+    · cases hs; intro k y hk; exact nd_setNode h (hnd.setPc .self2 (fun _ e => by cases e)) k y hk
+    · cases hs; exact nd_setNode h (hnd.setPc _ (fun _ e => by cases e))
+  | self2 => simp only [hpc] at hs; cases hs; intro k y hk; exact nd_setNode h (hnd.setPc .afterSelf2 (fun _ e => by cases e)) k y hk
+  | afterSelf2 => simp only [hpc] at hs; cases hs; exact nd_setNode h (hnd.setPc _ (fun _ e => by cases e))
   | done => simp only [hpc] at hs; cases hs; exact h
 
 theorem dtick_nd {inp : RunInput} {evs : List Ev} {s s' : Sys} {perm : List Name}
-    (hfe : ∀ d, stOf s d = .fail → ∃ k, Ev.failure d k ∈ evs) (h : AllNDe inp evs s)
+    (hfe : EvSt evs s) (h : AllNDe inp evs s)
     (hs : dtick inp s perm = some s') : AllNDe inp evs s' := by
   unfold dtick at hs
   cases hc : s.cur with
@@ -293,14 +396,14 @@ theorem dtick_nd {inp : RunInput} {evs : List Ev} {s s' : Sys} {perm : List Name
 
 theorem wakeOne_nd {inp : RunInput} {evs : List Ev} {s : Sys} {pst : RS} {p w : Name} {nd : Node}
     (h : AllNDe inp evs s) (hw : s.nodes w = some nd) (hnc : wakeCrash p nd = false)
-    (hf : pst = .fail → ∃ k, Ev.failure p k ∈ evs) : AllNDe inp evs (wakeOne inp s pst p w nd) := by
-  have := nd_setNode h (wokenNode_nd (inp := inp) pst (h w nd hw) hnc hf)
+    (hf : PstOK evs pst p) : AllNDe inp evs (wakeOne inp s pst p w nd) := by
+  have := nd_setNode h (wokenNode_nd (inp := inp) (h w nd hw) hnc hf)
   unfold wakeOne; split
   · intro k y hk; exact this k y hk
   · exact this
 
 theorem updateWaiting_nd {inp : RunInput} {evs : List Ev} {pst : RS} {p : Name}
-    (hf : pst = .fail → ∃ k, Ev.failure p k ∈ evs) :
+    (hf : PstOK evs pst p) :
     ∀ (perm : List Name) (s s' : Sys), AllNDe inp evs s → updateWaiting inp pst p s perm = some s' →
       AllNDe inp evs s' := by
   intro perm
@@ -324,11 +427,11 @@ theorem sendHead_nd {inp : RunInput} {evs : List Ev} {s : Sys} {p : Name} {nd : 
   unfold sendHead; split
   · intro k y hk
     exact nd_setNode (x := { nd with waitSelect := false }) h
-      ⟨hnd.dt, hnd.dc, hnd.pt, hnd.pcalc, hnd.st, hnd.sc, hnd.wr, hnd.wc, hnd.bd⟩ k y hk
+      ⟨hnd.dt, hnd.dc, hnd.pt, hnd.pcalc, hnd.st, hnd.sc, hnd.wr, hnd.wc, hnd.bd, hnd.ig, hnd.sp⟩ k y hk
   · exact h
 
 theorem send_nd {inp : RunInput} {evs : List Ev} {s s' : Sys} {processed : Option Name} {perm : List Name}
-    (hfe : ∀ d, stOf s d = .fail → ∃ k, Ev.failure d k ∈ evs) (h : AllNDe inp evs s)
+    (hfe : EvSt evs s) (h : AllNDe inp evs s)
     (hs : send inp s processed perm = some s') : AllNDe inp evs s' := by
   unfold send at hs
   cases processed with
@@ -339,7 +442,7 @@ theorem send_nd {inp : RunInput} {evs : List Ev} {s s' : Sys} {processed : Optio
     | none => simp only [hn] at hs; cases hs; exact h
     | some nd =>
       simp only [hn] at hs
-      have hf : nd.status = .fail → ∃ k, Ev.failure p k ∈ evs := fun e => hfe p (by simp [stOf, hn, e])
+      have hf : PstOK evs nd.status p := by have := hfe p; simpa [stOf, hn] using this
       split at hs
       · cases hs; exact h
       · split at hs
@@ -356,12 +459,17 @@ theorem send_nd {inp : RunInput} {evs : List Ev} {s s' : Sys} {processed : Optio
 
 structure InvU (inp : RunInput) (s : Sys) : Prop where
   nd : AllNDe inp s.events s
-  um : ∀ t, Ev.failure t .unmet ∈ s.events → ∃ d k, IsDep inp t d ∧ Ev.failure d k ∈ s.events
+  um : ∀ t, Ev.failure t .unmet ∈ s.events →
+    ∃ d k, (DepObs inp s.events t d ∨ d ∈ inp.setup t) ∧ Ev.failure d k ∈ s.events
 
 theorem allND_status {inp : RunInput} {evs : List Ev} {s : Sys} {n : Name} {nd : Node} (h : AllNDe inp evs s)
-    (hn : s.nodes n = some nd) (st' : RS) : AllNDe inp evs (setNode s n { nd with status := st' }) := by
+    (hn : s.nodes n = some nd) (st' : RS) (hne : st' ≠ .none) :
+    AllNDe inp evs (setNode s n { nd with status := st' }) := by
   have hnd := h n nd hn
-  exact nd_setNode h ⟨hnd.dt, hnd.dc, hnd.pt, hnd.pcalc, hnd.st, hnd.sc, hnd.wr, hnd.wc, hnd.bd⟩
+  have up : ∀ d, IsDepO inp evs n nd.status d → IsDepO inp evs n st' d := fun d hd => hd.imp id (fun a => ⟨a.1, hne⟩)
+  exact nd_setNode h ⟨hnd.dt, hnd.dc, hnd.pt, hnd.pcalc, hnd.st, hnd.sc, fun d hd => up d (hnd.wr d hd), hnd.wc,
+    fun p hp => ⟨up p (hnd.bd p hp).1, (hnd.bd p hp).2⟩, fun p hp => ⟨up p (hnd.ig p hp).1, (hnd.ig p hp).2⟩,
+    fun _ _ => hne⟩
 
 theorem AllNDe.mono {inp : RunInput} {evs evs' : List Ev} {s : Sys} (h : AllNDe inp evs s)
     (hm : ∀ e ∈ evs, e ∈ evs') : AllNDe inp evs' s := fun k y hk => (h k y hk).mono hm
@@ -391,14 +499,15 @@ theorem selDecision_unmet_bad {inp : RunInput} {n : Name} {nd : Node} (h : selDe
 /-- all steps, from the shape of the node / event change -/
 theorem invU_of {inp : RunInput} {s s' : Sys} (h : InvU inp s)
     (hnodes : AllNDe inp s.events s') (new : List Ev) (hev : s'.events = new ++ s.events)
-    (hum : ∀ t, Ev.failure t .unmet ∈ new → ∃ d k, IsDep inp t d ∧ Ev.failure d k ∈ s.events) : InvU inp s' := by
+    (hum : ∀ t, Ev.failure t .unmet ∈ new →
+      ∃ d k, (DepObs inp s.events t d ∨ d ∈ inp.setup t) ∧ Ev.failure d k ∈ s.events) : InvU inp s' := by
   have hm : ∀ e ∈ s.events, e ∈ s'.events := fun e he => by rw [hev]; exact List.mem_append.mpr (Or.inr he)
   refine ⟨hnodes.mono hm, ?_⟩
   intro t ht
   rw [hev] at ht
   rcases List.mem_append.mp ht with a | a
-  · obtain ⟨d, k, h1, h2⟩ := hum t a; exact ⟨d, k, h1, hm _ h2⟩
-  · obtain ⟨d, k, h1, h2⟩ := h.um t a; exact ⟨d, k, h1, hm _ h2⟩
+  · obtain ⟨d, k, h1, h2⟩ := hum t a; exact ⟨d, k, h1.imp (fun x => x.mono hm) id, hm _ h2⟩
+  · obtain ⟨d, k, h1, h2⟩ := h.um t a; exact ⟨d, k, h1.imp (fun x => x.mono hm) id, hm _ h2⟩
 
 theorem quiet_no_unmet {new : List Ev} (hq : ∀ e ∈ new, e.quiet = true) (t : Name) : Ev.failure t .unmet ∉ new :=
   fun h => by have := hq _ h; simp [Ev.quiet] at this
@@ -425,8 +534,9 @@ theorem invU_select {inp : RunInput} {s s' : Sys} {n : Name} {nd : Node} (h : In
     (hev : s'.events = extra ++ (applySel inp s n nd (selDecision inp n nd)).events)
     (hq : ∀ e ∈ extra, e.quiet = true) : InvU inp s' := by
   refine invU_of h ?_ (extra ++ selEvents inp n nd (selDecision inp n nd)) ?_ ?_
-  · refine (allND_status h.nd hn (selStatus (selDecision inp n nd))).congr ?_
-    rw [e1, applySel_nodes _ _ _ _ _ hd]
+  · refine (allND_status h.nd hn (selStatus (selDecision inp n nd)) ?_).congr ?_
+    · cases hdd : selDecision inp n nd <;> simp [selStatus] <;> exact absurd hdd hd
+    · rw [e1, applySel_nodes _ _ _ _ _ hd]
   · rw [hev, applySel_events, List.append_assoc]
   · intro t ht
     rcases List.mem_append.mp ht with a | a
@@ -437,7 +547,7 @@ theorem invU_select {inp : RunInput} {s s' : Sys} {n : Name} {nd : Node} (h : In
       | nil => exact absurd hbl hb
       | cons p ps =>
         obtain ⟨h1, k, h2⟩ := (h.nd t nd hn).bd p (by rw [hbl]; simp)
-        exact ⟨p, k, h1, h2⟩
+        exact ⟨p, k, h1.imp id (fun x => x.1), h2⟩
 
 theorem resEvents_no_unmet (n : Name) (o : Outcome) (t : Name) : Ev.failure t .unmet ∉ resEvents n o := by
   intro h; cases o <;> simp [resEvents] at h
@@ -447,14 +557,15 @@ theorem invU_result {inp : RunInput} {s s1 s' : Sys} {n : Name} {nd : Node} (h :
     (hev : s'.events = resEvents n (inp.outcome n) ++ (mid ++ s.events)) (hq : ∀ e ∈ mid, e.quiet = true) :
     InvU inp s' := by
   refine invU_of h ?_ (resEvents n (inp.outcome n) ++ mid) (by rw [hev, List.append_assoc]) ?_
-  · refine (allND_status h.nd hn (resStatus (inp.outcome n))).congr ?_
-    rw [e1, processResult_nodes]; funext k; simp [setNode, e0]
+  · refine (allND_status h.nd hn (resStatus (inp.outcome n)) ?_).congr ?_
+    · cases inp.outcome n <;> simp [resStatus]
+    · rw [e1, processResult_nodes]; funext k; simp [setNode, e0]
   · intro t ht
     rcases List.mem_append.mp ht with a | a
     · exact absurd a (resEvents_no_unmet n _ t)
     · exact absurd a (quiet_no_unmet hq t)
 
-theorem serialStep_invU {inp : RunInput} {s s' : Sys} {perm : List Name} (h : InvU inp s) (hF : InvF inp s)
+theorem serialStep_invU {inp : RunInput} {s s' : Sys} {perm : List Name} (h : InvU inp s) (hes : EvSt s.events s)
     (hs : serialStep inp s perm = some s') : InvU inp s' := by
   have same : ∀ x : Sys, x.nodes = s.nodes → x.events = s.events → InvU inp x :=
     fun x a b => invU_frame h a [] (by simpa using b) (by simp)
@@ -469,13 +580,13 @@ theorem serialStep_invU {inp : RunInput} {s s' : Sys} {perm : List Name} (h : In
       | some s0 =>
         simp only [hsd] at hs; cases hs
         have o := (send_outer hsd).1.1
-        exact invU_of h ((send_nd hF.fe h.nd hsd).congr rfl) [] (by simpa using o) (fun t ht => by cases ht)
+        exact invU_of h ((send_nd hes h.nd hsd).congr rfl) [] (by simpa using o) (fun t ht => by cases ht)
   | sWait =>
     simp only [hr] at hs
     cases hsu : s.susp with
     | none =>
       simp only [hsu] at hs
-      exact invU_of h (dtick_nd hF.fe h.nd hs) [] (by simpa using (dtick_outer hs).1) (fun t ht => by cases ht)
+      exact invU_of h (dtick_nd hes h.nd hs) [] (by simpa using (dtick_outer hs).1) (fun t ht => by cases ht)
     | some o =>
       simp only [hsu] at hs
       cases o with
@@ -529,16 +640,7 @@ theorem serialStep_invU {inp : RunInput} {s s' : Sys} {perm : List Name} (h : In
 theorem init_invU (inp : RunInput) : InvU inp (init inp) :=
   ⟨fun k y hk => by simp [init] at hk, fun t ht => by simp [init] at ht⟩
 
-theorem reach_invU {inp : RunInput} {s : Sys} (h : Reach inp s) : InvU inp s := by
-  induction h with
-  | init => exact init_invU inp
-  | @next s0 s1 c hr hs ih =>
-    cases c with
-    | main perm => exact serialStep_invU ih (reach_invF hr) hs
-    | take w => cases hs
-    | done w => cases hs
-
-theorem pstep_invU {inp : RunInput} {s s' : Sys} {c : Choice} (h : InvU inp s) (hF : InvF inp s)
+theorem pstep_invU {inp : RunInput} {s s' : Sys} {c : Choice} (h : InvU inp s) (hes : EvSt s.events s)
     (hs : pstep inp s c = some s') : InvU inp s' := by
   have same : ∀ x : Sys, x.nodes = s.nodes → x.events = s.events → InvU inp x :=
     fun x a b => invU_frame h a [] (by simpa using b) (by simp)
@@ -584,13 +686,13 @@ theorem pstep_invU {inp : RunInput} {s s' : Sys} {c : Choice} (h : InvU inp s) (
       | some s0 =>
         simp only [hsd] at hs; cases hs
         have o := (send_outer hsd).1.1
-        exact invU_of h ((send_nd hF.fe h.nd hsd).congr rfl) [] (by simpa using o) (fun t ht => by cases ht)
+        exact invU_of h ((send_nd hes h.nd hsd).congr rfl) [] (by simpa using o) (fun t ht => by cases ht)
     | gWait ret =>
       simp only [hr] at hs
       cases hsu : s.susp with
       | none =>
         simp only [hsu] at hs
-        exact invU_of h (dtick_nd hF.fe h.nd hs) [] (by simpa using (dtick_outer hs).1) (fun t ht => by cases ht)
+        exact invU_of h (dtick_nd hes h.nd hs) [] (by simpa using (dtick_outer hs).1) (fun t ht => by cases ht)
       | some o =>
         simp only [hsu] at hs
         cases o with
@@ -656,22 +758,5 @@ theorem pstep_invU {inp : RunInput} {s s' : Sys} {c : Choice} (h : InvU inp s) (
     | sWait => simp only [hr] at hs; cases hs
     | sExec a => simp only [hr] at hs; cases hs
     | halted => simp only [hr] at hs; cases hs
-
-theorem preach_invU {inp : RunInput} {s : Sys} (h : PReach inp s) : InvU inp s := by
-  induction h with
-  | init => exact init_invU inp
-  | @next s0 s1 c hr hs ih => exact pstep_invU ih (preach_invF hr) hs
-
-/-- a task reported `unmet` has a direct dependency (as the run determines it) with a failure report -/
-theorem unmet_has_failed_dep {inp : RunInput} {s : Sys} (hU : InvU inp s) (hF : InvF inp s) {t : Name}
-    (h : Ev.failure t .unmet ∈ s.events) : ∃ d k, DepOnE inp s.events t d ∧ Ev.failure d k ∈ s.events := by
-  obtain ⟨d, k, hdep, hf⟩ := hU.um t h
-  refine ⟨d, k, ?_, hf⟩
-  rcases hdep with a | a
-  · exact .ns a
-  · refine .setup a (fun hu => ?_)
-    have h1 := hF.fl t _ h
-    have h2 := hF.ut t hu
-    rw [h1] at h2; cases h2
 
 end DoitModel.Run
